@@ -48,6 +48,9 @@ CLAIMED = {
  "C17": ("property-based testing: manifest-sliced store vs full store must give identical responses", "5.17",
          "compute_entity_manifest + slice_entities on generated valid policy sets and conformant stores; responses compared (decision, reasons, error ids). Manifest refusals for documented unsupported features are counted skips.",
          "trusted: World-S conformance; tags are outside the manifest's supported fragment"),
+ "C18": ("differential property testing: symbolic compilation on literal environments (no solver) vs the concrete evaluator/authorizer, truth table over all verification conditions", "5.18",
+         "For generated valid policies and conformant concrete environments the literal SymEnv is compiled and all 11 verification conditions must reduce to constants agreeing with concrete evaluation. 15/16 of the stores are closed by construction; disagreements on stores with dangling references are the listed finding.",
+         "trusted: World-S conformance; the reading of literal asserts (as in upstream's test utilities); literal environments only"),
  "C08": ("model-based stateful property testing of PolicySet edit histories with a substitution oracle for links", "5.8",
          "Operation histories (incl. merge with renaming) run against an id-map model with the documented error rules; all observers are compared after every step and authorization is compared with the textually substituted static set.",
          "trusted: id-map model; 5 ids, 8 texts, <=30 operations"),
